@@ -1,5 +1,73 @@
-"""C07 — see DESIGN.md; shared machinery in scope_common.py"""
-import scope_common
+"""C07 — see DESIGN.md; shared machinery in scope_common.py.
+
+Besides the SL correspondence (variables, parameters, loop variables, shadowing, nesting) a verdict matrix covers the
+definition forms the SL language does not contain: annotated definitions, tuple destructuring, class arguments, class body
+fields, `fin` receivers, `fin self`, undefined fields, compound assignment operators, in several contexts.  The expected
+verdict is read off the property statement: reject iff the target (or its receiver) is `fin` or undefined."""
+import scope_common, sweep
+
+OPS = [":=", "+=", "-=", "*="]
+
+
+def wrap(ctx, prelude, body):
+    """body: list of statement lines; returns program text"""
+    ind = lambda ls, n: ["    " * n + l for l in ls]
+    if ctx == "top":
+        return "\n".join(prelude + body) + "\n"
+    if ctx == "function":
+        return "\n".join(prelude + ["def ff() -> Int =>"] + ind(body + ["0"], 1)) + "\n"
+    if ctx == "if":
+        return "\n".join(prelude + ["def cnd := True", "if cnd then"] + ind(body, 1)) + "\n"
+    if ctx == "else":
+        return "\n".join(prelude + ["def cnd := True", "if cnd then", "    print(1)", "else"] + ind(body, 1)) + "\n"
+    if ctx == "while":
+        return "\n".join(prelude + ["def cnd := True", "while cnd do"] + ind(body + ["cnd := False"], 1)) + "\n"
+    if ctx == "for":
+        return "\n".join(prelude + ["for iq in 0 .. 2 do"] + ind(body, 1)) + "\n"
+    if ctx == "method":
+        return "\n".join(prelude + ["class Ctx", "    def mm(self) -> Int =>"] + ind(body + ["0"], 2)) + "\n"
+    raise ValueError(ctx)
+
+
+def matrix(thorough):
+    """-> [(label, text, expected 'accept'|'reject')]"""
+    out = []
+    ctxs = ["top", "function", "if", "else", "while", "for", "method"]
+    klass = lambda fc, fg: ["class K(def %sc: Int)" % ("fin " if fc else ""), "    def %sg: Int := 0" % ("fin " if fg else "")]
+    for ctx in ctxs:
+        for op in OPS:
+            for fin in (False, True):
+                f, exp = ("fin " if fin else ""), ("reject" if fin else "accept")
+                tag = "fin" if fin else "mut"
+                out.append(("plain/%s/%s/%s" % (tag, op, ctx), wrap(ctx, [], ["def %sx := 1" % f, "x %s 2" % op]), exp))
+                out.append(("annotated/%s/%s/%s" % (tag, op, ctx), wrap(ctx, [], ["def %sx: Int := 1" % f, "x %s 2" % op]), exp))
+                for comp in ("x", "y"):
+                    out.append(("tuple-%s/%s/%s/%s" % (comp, tag, op, ctx), wrap(ctx, [], ["def %s(x, y) := (1, 2)" % f, "%s %s 3" % (comp, op)]), exp))
+                # receiver
+                out.append(("receiver/%s/%s/%s" % (tag, op, ctx), wrap(ctx, klass(False, False), ["def %so := K(1)" % f, "o.g %s 2" % op]), exp))
+                out.append(("receiver-arg/%s/%s/%s" % (tag, op, ctx), wrap(ctx, klass(False, False), ["def %so := K(1)" % f, "o.c %s 2" % op]), exp))
+                # fields through a mutable receiver
+                out.append(("field-body/%s/%s/%s" % (tag, op, ctx), wrap(ctx, klass(False, fin), ["def o := K(1)", "o.g %s 2" % op]), exp))
+                out.append(("field-arg/%s/%s/%s" % (tag, op, ctx), wrap(ctx, klass(fin, False), ["def o := K(1)", "o.c %s 2" % op]), exp))
+                # shadowing: the innermost definition decides
+                out.append(("shadow-then-%s/%s/%s" % (tag, op, ctx), wrap(ctx, [], ["def %sx := 1" % ("" if fin else "fin "), "def %sx := 5" % f, "x %s 2" % op]), exp))
+            out.append(("undefined/%s/%s" % (op, ctx), wrap(ctx, [], ["zq %s 2" % op]), "reject"))
+            out.append(("undefined-field/%s/%s" % (op, ctx), wrap(ctx, klass(False, False), ["def o := K(1)", "o.zq %s 2" % op]), "reject"))
+    # parameters and self
+    for op in OPS:
+        for fin in (False, True):
+            f, exp, tag = ("fin " if fin else ""), ("reject" if fin else "accept"), ("fin" if fin else "mut")
+            out.append(("param/%s/%s" % (tag, op), "def ff(%sa: Int) -> Int =>\n    a %s 2\n    a\n" % (f, op), exp))
+            out.append(("param-nested/%s/%s" % (tag, op), "def ff(%sa: Int) -> Int =>\n    if a > 0 then\n        a %s 2\n    a\n" % (f, op), exp))
+            out.append(("self/%s/%s" % (tag, op), "class K(def c: Int)\n    def g: Int := 0\n    def mm(%sself) -> Int =>\n        self.g %s 3\n        1\n" % (f, op), exp))
+            out.append(("self-arg/%s/%s" % (tag, op), "class K(def c: Int)\n    def g: Int := 0\n    def mm(%sself) -> Int =>\n        self.c %s 3\n        1\n" % (f, op), exp))
+            out.append(("self-field-body/%s/%s" % (tag, op), "class K(def c: Int)\n    def %sg: Int := 0\n    def mm(self) -> Int =>\n        self.g %s 3\n        1\n" % (f, op), exp))
+            out.append(("self-field-arg/%s/%s" % (tag, op), "class K(def %sc: Int)\n    def g: Int := 0\n    def mm(self) -> Int =>\n        self.c %s 3\n        1\n" % (f, op), exp))
+            out.append(("param-receiver/%s/%s" % (tag, op), "class K(def c: Int)\n    def g: Int := 0\ndef ff(%so: K) -> Int =>\n    o.g %s 2\n    1\n" % (f, op), exp))
+    # reassignment with a value of another type stays rejected, of the same type accepted
+    out.append(("type/same", "def x: Int := 1\nx := 2\n", "accept"))
+    out.append(("type/other", "def x: Int := 1\nx := \"s\"\n", "reject"))
+    return out
 
 
 def run(chk):
@@ -12,3 +80,30 @@ def run(chk):
     if not ok:
         return
     scope_common.run_scope(chk, ["assign"], "Mutability", 60 if thorough else 14, 6 if thorough else 4)
+    cases = matrix(thorough)
+    res = sweep.transpile(chk, [t for _, t, _ in cases], annotate_both=False)
+    stats = {"accept_ok": 0, "reject_ok": 0, "reject_for_other_reason": 0}
+    for (label, text, exp), r in zip(cases, res):
+        got = "accept" if r[0][0] == "ok" else ("reject" if r[0][0] == "err" else "crash")
+        why = None
+        if got == "crash":
+            why = "%s: the checker crashes" % label
+        elif exp == "reject" and got == "accept":
+            why = "%s: an assignment to a fin or undefined target is ACCEPTED" % label
+        elif exp == "accept" and got == "reject":
+            why = "%s: reassigning a mutable definition with a value of its type is REJECTED: %s" % (label, r[0][1][0][:200])
+        else:
+            stats["accept_ok" if got == "accept" else "reject_ok"] += 1
+            if got == "reject" and not label.startswith(("type/", "undefined-field")) and not scope_common.impl_class(r[0]) in ("reject Mutability", "reject Undefined"):
+                stats["reject_for_other_reason"] += 1
+        if why:
+            f = chk.known(label)
+            if f:
+                chk.report_known(f, why)
+            elif len(chk.violations) < 5:
+                chk.violation("input", why, case={"kind": "prog", "label": label, "text": text}, expected=exp, actual=str(r[0])[:600])
+    chk.cov["oracle"]["matrix"] = {"spec": "definition form x mutability x assignment operator x context: reject iff the target or its receiver is fin or undefined",
+                                   "cases": len(cases), "stats": stats}
+    chk.cov["evaluations"] += len(cases)
+    chk.cov["distinct_nontrivial"] += len(cases)
+    chk.cov["rule"] += "; + verdict matrix over definition forms (plain, annotated, tuple components, class argument, class body field, parameter, receiver, self, undefined, shadowed) x {:=,+=,-=,*=} x {top, function, if, else, while, for, method}"
